@@ -40,7 +40,8 @@ def gen_prog(rng, o, ty, nb, kind):
                 prog.append(['dispatch', rng.randrange(nb), rng.choice(lower), nslots])
                 nslots += 1
             elif r > 1 - o['p_raise']:
-                prog.append(['return_exc'] if rng.random() < 0.25 else ['raise'])
+                x = rng.random()
+                prog.append(['return_exc'] if x < 0.25 else ['raise_timeout'] if x < 0.4 else ['raise'])
                 break
             continue
         if r < 0.28:
@@ -64,7 +65,7 @@ def gen_prog(rng, o, ty, nb, kind):
             # (one raise in five is a CancelledError the handler lets escape from a cancelled helper task it awaits, one an
             #  exception object that is returned instead of raised)
             x = rng.random()
-            prog.append(['raise_cancelled'] if x < 0.2 else ['return_exc'] if x < 0.4 else ['raise'])
+            prog.append(['raise_cancelled'] if x < 0.2 else ['return_exc'] if x < 0.4 else ['raise_timeout'] if x < 0.55 else ['raise'])
             break
     return prog
 
@@ -141,7 +142,7 @@ def gen_core(rng, **over):
             h['prog'] = gen_prog(rng, o, '*', nb, kind)
         if key != '*' and rng.random() < 0.3:
             h['byclass'] = True          # registered with the event class instead of the type name
-        if kind in ('async', 'sync') and rng.random() < 0.35 and not (h['prog'] and h['prog'][-1][0] in ('raise', 'raise_cancelled', 'return_exc')):
+        if kind in ('async', 'sync') and rng.random() < 0.35 and not (h['prog'] and h['prog'][-1][0] in ('raise', 'raise_cancelled', 'return_exc', 'raise_timeout')):
             h['prog'].append(['return', {f"k{len(sc['handlers'])}": len(sc['handlers']), 'shared': len(sc['handlers']) % 2}])      # (non-empty dict values: the flat-dict accessor merges them)
         if kind == 'async' and rng.random() < o['p_retry']:
             h['retry'] = True            # decorated with bubus.helpers.retry (no retries, no semaphore, a far per-attempt timeout)
@@ -387,8 +388,12 @@ def gen_parraise(rng, idle=False, **_):
                                'prog': [['sleep', rng.choice([1 / 16, 1 / 8]) if j == 0 else rng.choice([0, 1 / 64])]]})
     if rng.random() < 0.5:
         # the event with the raising handler is itself a child awaited inside a handler (of D, on the other bus)
-        sc['handlers'].append({'bus': 1, 'key': 'D', 'kind': 'async',
-                               'prog': [['dispatch', 0, 'A', 0], ['await', 0], ['sleep', rng.choice([0, 1 / 64])]]})
+        prog = [['dispatch', 0, 'A', 0], ['await', 0], ['sleep', rng.choice([0, 1 / 64])]]
+        if rng.random() < 0.5:
+            # an unrelated event is queued behind the awaited one (fire-and-forget, on either bus)
+            prog.insert(1, ['dispatch', rng.choice([0, 1]), 'B', 1])
+            sc['handlers'].append({'bus': prog[1][1], 'key': 'B', 'kind': 'async', 'prog': [['sleep', rng.choice([0, 1 / 64])]]})
+        sc['handlers'].append({'bus': 1, 'key': 'D', 'kind': 'async', 'prog': prog})
         main = [['dispatch', 1, 'D', 0], ['await', 0]]
     else:
         main = [['dispatch', 0, 'A', 0], ['await', 0]]
@@ -504,6 +509,98 @@ def gen_deepfwd(rng, **_):
     if rng.random() < 0.4:
         sc['handlers'].append({'bus': n - 1, 'key': '*', 'kind': 'forward', 'target': 0, 'prog': []})
     sc['tasks'].append([['dispatch', 0, 'A', 0], ['await', 0]])
+    return sc
+
+
+def gen_fwdfail(rng, **_):
+    """a forwarding chain or ring of 2-4 buses ('*' forwards, registered after - sometimes before - the ordinary handlers of
+    the bus), one or two of whose ordinary handlers fail: raise, let a CancelledError escape, return an exception object, or
+    run into the event's timeout; several events enter at different buses"""
+    n = rng.randint(2, 4)
+    sc = {'buses': [{'parallel': rng.random() < 0.15, 'maxh': 50, 'wal': False} for _ in range(n)],
+          'types': {t: {'timeout': None} for t in 'ABCD'}, 'handlers': [], 'tasks': []}
+    ring = rng.random() < 0.5
+    slow = rng.random() < 0.25
+    if slow:
+        sc['types']['A']['timeout'] = rng.choice([9 / 128, 33 / 128])
+    nbad = rng.choice([1, 1, 2])
+    badbus = [rng.randrange(n) for _ in range(nbad)]
+    for b in range(n):
+        hs = []
+        for _ in range(rng.randint(0, 2)):
+            hs.append({'bus': b, 'key': rng.choice(['A', 'A', '*']), 'kind': rng.choice(['async', 'async', 'sync']),
+                       'prog': [['sleep', rng.choice([0, 1 / 64])]] if rng.random() < 0.4 else []})
+            if hs[-1]['kind'] == 'sync':
+                hs[-1]['prog'] = []
+        for _ in range(badbus.count(b)):
+            x = rng.random()
+            kind = 'async' if x < 0.8 else 'sync'
+            if slow and kind == 'async' and rng.random() < 0.5:
+                prog = [['sleep', 3 / 4]]
+            elif kind == 'sync':
+                prog = [rng.choice([['raise'], ['return_exc']])]
+            else:
+                prog = ([['sleep', rng.choice([0, 1 / 64])]] if rng.random() < 0.5 else []) + \
+                       [rng.choice([['raise'], ['raise'], ['raise_cancelled'], ['raise_cancelled'], ['return_exc']])]
+            hs.insert(rng.randrange(len(hs) + 1), {'bus': b, 'key': rng.choice(['A', 'A', '*']), 'kind': kind, 'prog': prog})
+        fwd = None
+        if b < n - 1:
+            fwd = {'bus': b, 'key': '*', 'kind': 'forward', 'target': b + 1, 'prog': []}
+        elif ring:
+            fwd = {'bus': b, 'key': '*', 'kind': 'forward', 'target': 0, 'prog': []}
+        if fwd:
+            if rng.random() < 0.8:
+                hs.append(fwd)
+            else:
+                hs.insert(0, fwd)
+        sc['handlers'] += hs
+    main = []
+    k = rng.randint(1, 3)
+    for j in range(k):
+        main.append(['dispatch', rng.randrange(n) if (ring or rng.random() < 0.3) else 0, 'A', j])
+        if rng.random() < 0.5:
+            main.append(['await', j])
+    for b in range(n):
+        if rng.random() < 0.5:
+            main.append(['waitidle', b])
+    sc['tasks'].append(main)
+    return sc
+
+
+def gen_evictgap(rng, **_):
+    """a small history that is full of completed children of an event still in flight, while another task dispatches a run
+    of events one loop iteration apart, timed to the moments at which a handler of the in-flight event finishes and the
+    next one starts (or the event's processing ends)"""
+    N = rng.choice([2, 3, 4, 5, 6])
+    sc = {'buses': [{'parallel': rng.random() < 0.15, 'maxh': N, 'wal': False}],
+          'types': {t: {'timeout': None} for t in 'ABCD'}, 'handlers': [], 'tasks': []}
+    nkids = rng.randint(max(1, N - 2), N)
+    d = rng.choice([1 / 64, 1 / 32])
+    p1 = []
+    for j in range(nkids):
+        p1 += [['dispatch', 0, 'D', j]] + ([['await', j]] if rng.random() < 0.85 else [])
+    p1.append(['sleep', d])
+    hs = [{'bus': 0, 'key': 'A', 'kind': 'async', 'prog': p1}]
+    for _ in range(rng.randint(1, 3)):
+        hs.append({'bus': 0, 'key': rng.choice(['A', 'A', '*']), 'kind': rng.choice(['async', 'async', 'sync']), 'prog': []})
+        if hs[-1]['kind'] == 'async' and rng.random() < 0.5:
+            hs[-1]['prog'] = [['sleep', rng.choice([0, d])]]
+    if rng.random() < 0.3:
+        rng.shuffle(hs)
+    sc['handlers'] += hs
+    if rng.random() < 0.7:
+        sc['handlers'].append({'bus': 0, 'key': 'D', 'kind': rng.choice(['async', 'sync']), 'prog': []})
+    main = [['dispatch', 0, 'A', 0]]
+    if rng.random() < 0.4:
+        main.append(['dispatch', 0, 'A', 1])
+    main.append(['await', 0])
+    if rng.random() < 0.5:
+        main.append(['waitidle', 0])
+    sc['tasks'].append(main)
+    tick = [['sleep', d * rng.choice([1, 1, 1, 2])]]
+    for j in range(rng.randint(2, 6)):
+        tick += [['dispatch', 0, rng.choice('BC'), j]] + [['sleep', 0]] * rng.choice([1, 1, 1, 2])
+    sc['tasks'].append(tick)
     return sc
 
 
